@@ -76,13 +76,31 @@ def kill_group(p):
         pass
 
 
-def run_cmd(cmd, cwd, timeout, mem_gb=24, log=None, extra_env=None):
+RUNNING = set()
+RUN_LOCK = threading.Lock()
+ABORT = threading.Event()
+
+
+def abort_all():
+    """the run's verdict is settled (a violation was reproduced): stop every harness still running"""
+    ABORT.set()
+    with RUN_LOCK:
+        for p in list(RUNNING):
+            kill_group(p)
+
+
+def run_cmd(cmd, cwd, timeout, mem_gb=24, log=None, extra_env=None, abortable=False):
     t0 = time.time()
     e = env()
     if extra_env:
         e.update(extra_env)
+    if abortable and ABORT.is_set():
+        return -15, "aborted: a violation was already reproduced in this run\n", False, 0.0
     p = subprocess.Popen(cmd, cwd=cwd, env=e, stdout=subprocess.PIPE, stderr=subprocess.STDOUT,
                          preexec_fn=_limits(mem_gb), text=True, errors="replace")
+    if abortable:
+        with RUN_LOCK:
+            RUNNING.add(p)
     timed_out = False
     try:
         out, _ = p.communicate(timeout=timeout)
@@ -91,6 +109,9 @@ def run_cmd(cmd, cwd, timeout, mem_gb=24, log=None, extra_env=None):
         kill_group(p)
         out, _ = p.communicate()
     kill_group(p)  # reap any straggling cbmc
+    if abortable:
+        with RUN_LOCK:
+            RUNNING.discard(p)
     if log:
         with open(log, "w") as f:
             f.write(out)
@@ -181,16 +202,18 @@ def run_harness(name, mod, slot, cap, logdir, extra=()):
     cmd = ["cargo", "kani", "--harness", "%s::%s" % (mod, name), "--exact", "-Z", "stubbing", "-v",
            "--target-dir", tdir] + list(extra)
     log = os.path.join(logdir, name + ".log")
-    rc, out, to, dt = run_cmd(cmd, HARNESS, cap, log=log)
+    rc, out, to, dt = run_cmd(cmd, HARNESS, cap, log=log, abortable=True)
     if "Kani unexpectedly panicked" in out and "print_stats" in out:
         # kani-compiler 0.68 ICEs in its verbose-only statistics printer on some crates:
         # run again without -v (no symex / solver time break-down for this harness)
         cmd = [c for c in cmd if c != "-v"]
-        rc, out, to, dt2 = run_cmd(cmd, HARNESS, cap, log=log)
+        rc, out, to, dt2 = run_cmd(cmd, HARNESS, cap, log=log, abortable=True)
         dt += dt2
     r = parse_output(out)
     r.update({"name": name, "module": mod, "wall_s": round(dt, 1), "rc": rc, "log": log})
-    if to:
+    if ABORT.is_set() and r["status"] not in ("ok", "failed"):
+        r["status"] = "aborted"
+    elif to:
         r["status"] = "timeout"
     elif r["status"] == "error" and (r.get("oom") or rc in (-9, 137)):
         r["status"] = "oom"
